@@ -21,7 +21,8 @@ CRATES = {
              "rustflags": "", "test_args": ["--features", "testing"]},
     "transport": {"dir": "quic/s2n-quic-transport", "pkg": "s2n-quic-transport", "kani_args": [],
                   "rustflags": '--cfg feature="testing"', "test_args": []},
-    "dc": {"dir": "dc/s2n-quic-dc", "pkg": "s2n-quic-dc", "kani_args": [], "rustflags": "", "test_args": []},
+    "dc": {"dir": "dc/s2n-quic-dc", "pkg": "s2n-quic-dc", "kani_args": [], "rustflags": "", "test_args": [],
+           "kani_rustflags": ""},
     "crypto": {"dir": "quic/s2n-quic-crypto", "pkg": "s2n-quic-crypto", "kani_args": [], "rustflags": "",
                "test_args": []},
     "codec": {"dir": "common/s2n-codec", "pkg": "s2n-codec", "kani_args": ["--features", "testing"],
